@@ -240,6 +240,9 @@ func (o *sfObj) writeAt(b []byte, off int64) (int, error) {
 		return 0, os.ErrNotExist
 	}
 	end := off + int64(len(b))
+	if off < 0 || end > 1<<22 {
+		return 0, &os.PathError{Op: "write", Path: o.path, Err: syscall.EFBIG} // the simulated store is small
+	}
 	if len(b) > 0 && end > int64(len(nd.data)) {
 		nd.data = append(nd.data, make([]byte, end-int64(len(nd.data)))...)
 	}
@@ -438,10 +441,10 @@ func (fs *sfs) filecmd(method string, r *Request) error {
 			return errors.New("bad attributes")
 		}
 		if fl.Size && nd.kind == 'f' {
-			sz := int(at.Size)
-			if sz > 1<<20 {
-				return errors.New("too large")
+			if at.Size > 1<<22 {
+				return &os.PathError{Op: "truncate", Path: r.Filepath, Err: syscall.EFBIG}
 			}
+			sz := int(at.Size)
 			if sz <= len(nd.data) {
 				nd.data = nd.data[:sz]
 			} else {
